@@ -391,10 +391,33 @@ pub fn run(cfg: &Cfg) -> Stats {
     for w in ["undef", "undine", "undefine", "UNDEF", "Undine", "unde", "und1", "undu", "undundun", "un", "nd", "dun", "und-", "und\0"] {
         extra.push(w.as_bytes().to_vec());
     }
+    // lengths that wrap to a legal length when narrowed to 8 or 16 bits (len as u8 == 4 ...):
+    // L + 256, L + 512, L + 65536 for every legal / near-legal L, in letters, digits and
+    // digit + letters, pure and with a non-alphanumeric tail
+    for wrap in [256usize, 512, 65536] {
+        for l in 1..=9usize {
+            let n = wrap + l;
+            extra.push(vec![b'a'; n]);
+            extra.push(vec![b'7'; n]);
+            let mut v = vec![b'b'; n];
+            v[0] = b'1';
+            extra.push(v);
+            let mut v = vec![b'.'; n];
+            for c in v.iter_mut().take(l) {
+                *c = b'a';
+            }
+            extra.push(v);
+            let mut v = vec![0u8; n];
+            for c in v.iter_mut().take(l) {
+                *c = b'z';
+            }
+            extra.push(v);
+        }
+    }
     let nextra = extra.len() as u64;
     let s = par_range(nextra, |i, st| check(&extra[i as usize], st, Some(maxlen)));
     total = total.merge(s);
-    total.subspace("sanitisation slips of 15 subtags (padding, case-folding look-alikes) and und-prefixed words", nextra, true);
+    total.subspace("sanitisation slips of 15 subtags (padding, case-folding look-alikes) und-prefixed words, and strings whose length wraps to a legal one in 8 / 16 bits", nextra, true);
 
     // random
     let n = cfg.pick(300_000, 5_000_000);
